@@ -22,7 +22,7 @@ fn shuffled(order: &[Top], c: &mut Choices) -> Vec<Top>
 }
 
 /// faults as extra top-level text: (text, must appear among the codes)
-fn fault(c: &mut Choices, prog: &Program) -> (String, u16)
+pub fn fault(c: &mut Choices, prog: &Program) -> (String, u16)
 {
 	let existing_fn = prog.funcs.iter().find(|f| f.name != "main").map(|f| f.name.clone());
 	let existing_const = prog.consts.first().map(|k| k.name.clone());
